@@ -389,7 +389,7 @@ def signature(scn, out):
                 vals.append(k)
         props = "+".join(vals)
     if scn.get("races") and v[0] in ("stale-binary", "shared-entry", "exception"):
-        # one recorded finding whatever the rest of the configuration is (see KNOWN_FINDINGS.txt)
+        # (a repaired defect, see KNOWN_FINDINGS.txt: one signature whatever the rest of the configuration is)
         return "%s|kernel-file-rewritten-during-a-build" % PROP
     envs = ",".join(sorted((scn.get("env") or {}).keys()))
     return "%s|%s|differ=%s%s%s" % (PROP, v[0], props, ("|env=" + envs) if envs else "",
